@@ -258,6 +258,7 @@ impl Check for C01 {
             seq_len,
             STMTS.len()
         );
+        ctx.rule.push_str("; plus every payload and repository script written without the separators its tokens do not need, evaluation-order constructs in which an operator meets an ill-typed pair before later operands or an access reads its own container, and programs whose index, key or bound reads or writes the container it is applied to");
         let mut cases: Vec<Case> = vec![];
         let mut n_programs = 0u64;
         let flush = |ctx: &mut Ctx, cases: &mut Vec<Case>, this: &C01| -> Result<(), MachineryError> {
